@@ -143,8 +143,29 @@ func newEnv() (*env, error) {
 				}
 				e.resv[i], e.ports[i] = fd, port
 			}
+			// the kernel kept handing out ports whose neighbour is taken (many harness processes
+			// and lingering sockets on a loaded machine): look for a pair ourselves
+			var lastErr error
+			for base := 20001 + 2*(os.Getpid()%9000); !ok && base < 60000; base += 2 {
+				fd0, err0 := reservePortAt(base)
+				if err0 != nil {
+					lastErr = err0
+					continue
+				}
+				fd1, err1 := reservePortAt(base + 1)
+				if err1 != nil {
+					lastErr = err1
+					syscall.Close(fd0)
+					continue
+				}
+				syscall.Close(fd)
+				fd, port = fd0, base
+				e.resv[i], e.ports[i] = fd0, base
+				e.resv[rng1], e.ports[rng1] = fd1, base+1
+				ok = true
+			}
 			if !ok {
-				return nil, fmt.Errorf("no two consecutive free tcp ports found")
+				return nil, fmt.Errorf("no two consecutive free tcp ports found (last error: %v)", lastErr)
 			}
 		}
 	}
